@@ -41,6 +41,61 @@ def as_int(x):
     return 2000000000   # sentinel: not representable on the integer grid (never equal to anything)
 
 
+def nonlinear_stage(tier, v):
+    """Stage 2, 'its nonlinear part': GenNL models whose objective is a functional expression (either sense,
+    either sign of its coefficient) get a linear decoy objective before or after it; objno selects the generated
+    one; the delivered objective TOGETHER with the delivered definitions of its auxiliary variables must take the
+    NL objective's value at every feasible grid point (Reform!PointVerdict, verdicts obj-*)."""
+    import cvtcases
+    dexe = targets.get("h_drv")
+    gen2, g2 = cvtcases.generate()
+    cfgs, acc = cvtcases.configs(dexe)
+    rnd = random.Random(seed() + 5)
+    lin_cfgs = [c_ for c_ in cfgs if c_[0] == "mip-linear"] or cfgs
+    strata = {}
+    for g_ in gen2:
+        if g_["use"] in ("objmin", "objmax"):
+            strata.setdefault((g_["kind"], g_["op"], g_["use"], g_["k"] if g_["kind"] == "prod" else 0), []).append(g_)
+    cases = []
+    for key_ in sorted(strata):
+        # products (k * F * G) under the configurations that linearise everything: there the coefficient's sign
+        # decides which half of F's definition must be delivered
+        n_ = (12 if tier == "thorough" else 4) if key_[0] == "prod" else (4 if tier == "thorough" else 1)
+        pool_ = strata[key_]
+        if key_[0] == "prod":
+            # half of the picks over all-binary domains (the delivered model stays small enough to be decided)
+            small_ = [g_ for g_ in pool_ if all(p_ == "bin" for p_ in g_["pat"])]
+            pool_ = rnd.sample(small_, min(len(small_), n_ // 2)) + rnd.sample(pool_, min(len(pool_), n_ - n_ // 2))
+            n_ = len(pool_)
+        for g_ in rnd.sample(pool_, min(len(pool_), n_)):
+            name_, opts_ = lin_cfgs[rnd.randrange(len(lin_cfgs))] if key_[0] == "prod" and rnd.random() < 0.8 else cfgs[rnd.randrange(len(cfgs))]
+            pos = rnd.choice(["first", "last", "last1"])
+            sel = {"first": [rnd.choice(["objno=2", "obj:no=2"])], "last": [], "last1": ["objno=1"]}[pos]
+            cases.append({"id": len(cases), "gen": g_, "cfgname": name_, "opts": [o for o in opts_ if not (g_["kind"] == "mono" and o.startswith("acc:expa="))] + sel,
+                          "decoy": "first" if pos == "first" else "last"})
+    recs, stats = cvtcases.run_and_record(dexe, PID + "n", cases)
+    res = validate_parallel("TraceReform", "TraceReform.cfg", recs, os.path.join(SPECS, "flat"), "c12n")
+    verdicts = [x for r in res for x in printed_json(r, "VERDICT")]
+    if len(verdicts) != len(recs):
+        raise Broken("nonlinear stage: verdict count %d != %d" % (len(verdicts), len(recs)))
+    tally = {}
+    for vd in verdicts:
+        tally[vd["v"]] = tally.get(vd["v"], 0) + 1
+        # per point: <<point, "cut-off" | "extra" | "obj-count" | "obj-sense" | "obj-worse" | "obj-better">>;
+        # feasibility verdicts are C01's business
+        opts_ = [pt for pt in vd["pts"] if isinstance(pt, list) and len(pt) == 2 and str(pt[1]).startswith("obj-")] if vd["v"] == "violation" else []
+        if not opts_:
+            continue
+        vd = dict(vd, v=sorted({pt[1] for pt in opts_})[0], pts=opts_)
+        c = cases[vd["id"]]
+        g_ = c["gen"]
+        v.violation("nl:%s:%s:%s:%s:%s:k%s:%s:%s" % (vd["v"], g_["kind"], g_["op"], g_["sh"], g_["use"], g_["k"], c["cfgname"], c["decoy"]),
+                    "model %s/%s shape=%s domains=%s use=%s k=%s with a linear decoy objective %s, options %s: the delivered objective with the delivered definitions of its auxiliary variables does not take the selected objective's value (%s) at %s" %
+                    (g_["kind"], g_["op"], g_["sh"], g_["pat"], g_["use"], g_["k"], c["decoy"], c["opts"], vd["v"], json.dumps(vd["pts"])[:300]),
+                    {"gen": g_, "opts": c["opts"], "decoy": c["decoy"], "verdict": vd})
+    return {"cases": len(cases), "strata": len(strata), "verdicts": tally, "run_stats": stats}, sum(r.distinct for r in res)
+
+
 def run(tier):
     t0 = time.time()
     sd = os.path.join(SPECS, "driver")
@@ -117,13 +172,17 @@ def run(tier):
         v.violation(key, "case %s (%s, opts %s): %s" % (b["id"], {k: c.get(k) for k in ("N", "objno", "multi")},
                                                         cases[b["id"]]["opts"] if b["id"] >= 0 else "", json.dumps(b["what"])),
                     {"case": c, "opts": cases[b["id"]]["opts"] if b["id"] >= 0 else None, "what": b["what"]})
+    nstats, nstates = nonlinear_stage(tier, v)
     rcode, nnew = v.finish()
+    if rcode == 0 and nstats["verdicts"].get("ok", 0) < nstats["cases"] // 3:
+        raise Broken("nonlinear stage vacuous: %s" % nstats)
     write_evidence(PID, tier, {
-        "states": mc.distinct + res.distinct, "transitions": mc.generated + res.generated,
+        "nonlinear_stage": nstats,
+        "states": mc.distinct + res.distinct + nstates, "transitions": mc.generated + res.generated,
         "traces_validated_against_impl": len(cases),
         "samples": [cases[5]["abs"], cases[-1]["abs"], open(trace).read().splitlines()[1:6]],
         "evaluations": len(cases), "abstract_cases": len(abstract), "exhaustive": True,
-        "explanation": "TLC enumerates all (N in 0..3, objno in unset/0..4, multiobj in unset/0/1), each also with names given (.col/.row read with cvt:names=2, generic with cvt:names=3: the delivered objective carries the name of the objective it is); each is concretised to NL files with distinct integer objectives (sense, linear, constant, bilinear parts); the real driver's delivered objectives are compared semantically (all grid points) with the selected originals by TLC",
+        "explanation": "TLC enumerates all (N in 0..3, objno in unset/0..4, multiobj in unset/0/1), each also with names given (.col/.row read with cvt:names=2, generic with cvt:names=3: the delivered objective carries the name of the objective it is); each is concretised to NL files with distinct integer objectives (sense, linear, constant, bilinear parts); the real driver's delivered objectives are compared semantically (all grid points) with the selected originals by TLC; stage 2: GenNL models whose objective is a functional expression (every operator, either sense, either coefficient sign) with a linear decoy objective before / after it: the delivered objective together with the delivered definitions of its auxiliary variables takes the selected objective's value at every feasible grid point (Reform.tla)",
         "rejected": len(bad), "violations_new": nnew,
     }, time.time() - t0, violations=nnew,
         assumptions=["objective constants are delivered as fixed auxiliary variables (checked: AuxFixed)", "text NL input only in this check"])
